@@ -8,7 +8,7 @@ FAULTING_STAGES = ('call_listener_fault', 'call_listener_exc', 'fn_fault', 'fn_f
 
 def lenient(sched):
     # percent-encoded bytes that are not UTF-8 are accepted by the query-string parser
-    return sched['proto'] == 'http-json' and sched['request'] == 'bad_utf8'
+    return P.in_of(sched['proto']) == 'http' and sched['request'] == 'bad_utf8'
 
 
 def fn_expected(sched):
@@ -170,7 +170,7 @@ def check_hostile(sched, rec):
         code = resp[1] or ''
         if not (code == 'Client' or code.startswith('Client.')):
             pr.append('fault code %r is not in the Client family' % (code,))
-    if rec.start_response and sched['proto'] != 'soap11':
+    if rec.start_response and P.out_of(sched['proto']) != 'soap11':
         st = rec.start_response[0][0]
         if not st.startswith('4'):
             pr.append('HTTP status %r for a malformed request' % (st,))
@@ -215,7 +215,7 @@ def check_fault_wire(sched, rec):
         pr.append('exception text leaked into the response')
     if rec.start_response:
         stt = rec.start_response[0][0][:3]
-        want = '500' if sched['proto'] == 'soap11' else ('400' if code == 'Client' or code.startswith('Client.') else '500')
+        want = '500' if P.out_of(sched['proto']) == 'soap11' else ('400' if code == 'Client' or code.startswith('Client.') else '500')
         if stt != want:
             pr.append('HTTP status %s, expected %s' % (stt, want))
     return pr
